@@ -56,6 +56,7 @@ type Clause struct {
 	Cond      string // ghostset: condition
 	VarType   string // atcall sets: type of the ghost variable
 	Assumed   bool   // "assume": a postcondition of a /repo function that is used at call sites but not verified
+	SinceLock string // "ensures sincelock E" / "ensures sincefirstlock E": old() in E is the state right after the function last / first acquired a guarding mutex ("last", "first")
 	// Free: skip assumption of this ensures at call sites unless tag selected (unused)
 }
 
@@ -538,7 +539,15 @@ func parseSpecFile(path string, ps *PkgSpec, trustedFile bool) error {
 			default:
 				text, label, tags := splitLabelTags(" " + rest)
 				kind := map[string]ClauseKind{"requires": KRequires, "ensures": KEnsures, "assume": KEnsures, "cover": KCover, "returns": KReturns}[kw]
-				cur.Clauses = append(cur.Clauses, &Clause{Kind: kind, Text: text, Label: label, Tags: tags, File: path, Line: ln, Assumed: kw == "assume"})
+				sinceLock := ""
+				if kw == "ensures" && strings.HasPrefix(strings.TrimSpace(text), "sincelock ") {
+					sinceLock = "last"
+					text = " " + strings.TrimPrefix(strings.TrimSpace(text), "sincelock ")
+				} else if kw == "ensures" && strings.HasPrefix(strings.TrimSpace(text), "sincefirstlock ") {
+					sinceLock = "first"
+					text = " " + strings.TrimPrefix(strings.TrimSpace(text), "sincefirstlock ")
+				}
+				cur.Clauses = append(cur.Clauses, &Clause{Kind: kind, Text: text, Label: label, Tags: tags, File: path, Line: ln, Assumed: kw == "assume", SinceLock: sinceLock})
 			}
 		default:
 			return fmt.Errorf("%s:%d: cannot parse spec line: %q", path, ln, t)
